@@ -1,6 +1,6 @@
 // Harness for C05 / C02: what the response writer, the response stream and the client's request
 // builder put on the wire, captured with raw sockets.
-//   P <code> <cap> <server hex|-> <location hex|-> <cookies n=v,n=v hex|-> <body hex>
+//   P <code> <cap> <server hex|-> <location hex|-> <cookies n=v,n=v hex|-> <body hex> [raw=<name hex>:<value hex>]
 //   T <code> <chunk hex>,<chunk hex>,...          (empty list: '-')
 //   U <code> <max response size> <item,...>   streamed response built with every way of putting data into a ResponseStream:
 //        w<hex> write, e write of 0 bytes, l<hex> << const char*, i<n> << int, u<n> << uint64_t, c<hex> << char,
@@ -87,6 +87,7 @@ struct Plan
     std::atomic<int> outcome { 0 }; // 1 fulfilled, 2 rejected
     std::atomic<long> size { -1 };
     std::string seen;
+    std::string rawName, rawValue;     // mode P: a raw header
     std::vector<std::string> qheaders; // mode Q: names of the typed headers the request was built with
     std::atomic<int> vseen { 0 };      // mode V: requests the handler has been given
 };
@@ -158,6 +159,8 @@ public:
             response.headers().add<Http::Header::Location>(p.location);
         for (auto& c : p.cookies)
             response.cookies().add(Http::Cookie(c.first, c.second));
+        if (!p.rawName.empty())
+            response.headers().addRaw(Http::Header::Raw(p.rawName, p.rawValue));
         if (p.mode == "P")
         {
             auto* rp = &p;
@@ -239,8 +242,15 @@ static std::string handle(const std::string& line)
     g_plan    = &plan;
     plan.mode = t[0];
     size_t cap = 4096 * 1024;
-    if (t[0] == "P" && t.size() == 7)
+    if (t[0] == "P" && (t.size() == 7 || t.size() == 8))
     {
+        if (t.size() == 8 && t[7].rfind("raw=", 0) == 0)
+        {
+            // a header set as name and value only (Collection::addRaw)
+            auto colon     = t[7].find(':');
+            plan.rawName   = pv::unhex(t[7].substr(4, colon - 4));
+            plan.rawValue  = pv::unhex(t[7].substr(colon + 1));
+        }
         plan.code = atoi(t[1].c_str());
         cap       = static_cast<size_t>(atoll(t[2].c_str()));
         if (t[3] != "-")
